@@ -12,6 +12,8 @@
 //!                    span nested in the step's span), "under": bool (the message text contains double underscores),
 //!                    "off_thread": bool (one more message, emitted by a helper thread without a current span, with the
 //!                    step's span as its explicit parent),
+//!                    "nested": bool (one more message, logged by a step of a NESTED `runner::Basic` run that this step drives
+//!                    to completion: two scenario spans are then nested, the outer one must win),
 //!                    "leak": bool (a clone of the step's span is held beyond the step's end and dropped inside a step of
 //!                    another scenario: the span outlives its future, the close arrives AFTER the subscription)}]}]}
 //! History records: ["cb", scenario, step, attempt, span] ["emit", scenario, message id, span] ["close", span] ["sub", span] ["fwd"]
@@ -121,6 +123,7 @@ impl Future for DrainYield {
 struct St {
     steps: BTreeMap<u64, (u64, u64, u64, bool, bool)>, // step id -> pre, yields, post, inner, under
     leaky: std::collections::BTreeSet<u64>, // steps that hold a clone of their span beyond their own end
+    nested: std::collections::BTreeSet<u64>,   // steps that drive a nested run whose step logs one more message
     off_thread: std::collections::BTreeSet<u64>, // steps that also log from a helper thread (explicit parent span)
     leaked: Vec<(tracing::Span, u64)>,   // with the number of yield polls seen since
     yielders: u64,
@@ -189,6 +192,58 @@ fn emit_off_thread(sid: u64, span: u64) {
     .expect("helper thread");
 }
 
+thread_local! {
+    static NESTED_MSG: std::cell::Cell<(u64, bool)> = const { std::cell::Cell::new((0, false)) };
+}
+fn nested_step(_: &mut W, _: step::Context) -> LocalBoxFuture<'_, ()> {
+    async move {
+        let (m, warn) = NESTED_MSG.with(std::cell::Cell::get);
+        if warn {
+            tracing::warn!("LOGMSG#{m}#");
+        } else {
+            tracing::info!("LOGMSG#{m}#");
+        }
+    }
+    .boxed_local()
+}
+
+/// A message logged by a step of a NESTED run: the outer step drives a second `runner::Basic` (one feature, one scenario,
+/// one step) to completion, the way crates built on top of `cucumber` test themselves. The nested runner has no logs
+/// collector but does create its own `scenario` / `step` spans, as children of the outer step's span: the message is
+/// logged inside TWO scenario spans and belongs to the OUTER scenario. The nested run is polled to completion right here
+/// (a busy loop with a no-op waker), so nothing of the outer run happens in between; the trace points and events of the
+/// nested runner are bracketed by "nb" / "ne" records and dropped from the history.
+fn emit_nested(sid: u64, span: u64) {
+    use cucumber::Runner as _;
+    use futures::StreamExt as _;
+    let m = ST.with(|s| {
+        let mut s = s.borrow_mut();
+        s.next_msg += 1;
+        s.next_msg
+    });
+    verif_trace::record("emit", sid * 1_000_000 + m, span);
+    NESTED_MSG.with(|c| c.set((m, ST.with(|s| s.borrow().warn))));
+    let mut f = util::feature("nested feature", vec![]);
+    f.position.line = 7001;
+    let mut sc = util::scenario("nested scenario", vec![], 7002);
+    sc.steps.push(util::step(gherkin::StepType::Given, "nested say", 7003));
+    f.scenarios.push(sc);
+    let r = cucumber::runner::Basic::<W>::default().given(regex::Regex::new("^nested say$").expect("re"), nested_step);
+    verif_trace::record("nb", 0, 0);
+    let mut fut = r
+        .run(futures::stream::iter(vec![Ok(f)]), cucumber::runner::basic::Cli::default())
+        .collect::<Vec<_>>()
+        .boxed_local();
+    let waker = futures::task::noop_waker();
+    let mut cx = Context::from_waker(&waker);
+    let mut polls = 0u32;
+    while fut.as_mut().poll(&mut cx).is_pending() {
+        polls += 1;
+        assert!(polls < 100_000, "nested run does not end");
+    }
+    verif_trace::record("ne", 0, 0);
+}
+
 fn logging_step(_: &mut W, ctx: step::Context) -> LocalBoxFuture<'_, ()> {
     async move {
         let mut it = ctx.step.value.split(' ');
@@ -230,6 +285,9 @@ fn logging_step(_: &mut W, ctx: step::Context) -> LocalBoxFuture<'_, ()> {
         say(post);
         if ST.with(|s| s.borrow().off_thread.contains(&stid)) {
             emit_off_thread(sid, span);
+        }
+        if ST.with(|s| s.borrow().nested.contains(&stid)) {
+            emit_nested(sid, span);
         }
         // `leak`: the span outlives the step's future (as when a task spawned `.in_current_span()` is still alive): a
         // clone of it is parked until a step of another scenario is polled — only if one is certain to be
@@ -346,6 +404,9 @@ fn main() {
             if st["off_thread"].as_bool().unwrap_or(false) {
                 ST.with(|x| x.borrow_mut().off_thread.insert(stid));
             }
+            if st["nested"].as_bool().unwrap_or(false) {
+                ST.with(|x| x.borrow_mut().nested.insert(stid));
+            }
             if st["leak"].as_bool().unwrap_or(false) {
                 ST.with(|x| x.borrow_mut().leaky.insert(stid));
             }
@@ -433,7 +494,17 @@ fn main() {
     let evs = ST.with(|s| std::mem::take(&mut s.borrow_mut().events));
     let mut next = 0;
     let mut hist = Vec::new();
+    let mut in_nested = false;
     for (kind, a, b, _) in trace {
+        // everything the nested runner recorded (its loop turns, its events, the closing of its spans) is not part of
+        // the outer run's history
+        if kind == "nb" || kind == "ne" {
+            in_nested = kind == "nb";
+            continue;
+        }
+        if in_nested {
+            continue;
+        }
         match kind {
             "ev" => {
                 hist.push(json!(["ev", evs.get(next).cloned().unwrap_or(json!(["MISSING"]))]));
